@@ -13,7 +13,7 @@ EXPLANATION = (
     "true), evaluated with the pivot translation stubbed so that only the routing is observed; (ctor) the DepthBehavior "
     "constructors over a grid of small numbers (tri-state: what bounded(0, n) returns is not fixed by the property); "
     "(cycle) walkdir loop errors become WalkErrorKind::LinkCycle (C20.map).")
-RULES = "C15.plumb (EFFECT), C15.ctor (TABLE), C15.cycle (= C20.map)"
+RULES = "C15.plumb (EFFECT), C15.ctor (TABLE), C15.translate (TABLE on a grid), C15.cycle (= C20.map)"
 
 DB = "walk::behavior::DepthBehavior"
 LB = "walk::behavior::LinkBehavior"
@@ -27,6 +27,7 @@ def run(ctx):
                 "subtraction), emptiness when the bounds exclude every depth, termination on finite trees")
     rule_plumb(F, R)
     rule_ctor(F, R)
+    rule_translate(F, R)
     c20.rule_map(F, R)
 
 
@@ -135,3 +136,41 @@ def rule_ctor(F, R):
 def _n(v):
     v = strip(v)
     return v.name if isinstance(v, Sym) else repr(v)
+
+
+def rule_translate(F, R):
+    """Translation of the bounds past a prefix of `pivot` components: an entry at depth d from the root segment is at
+    walkdir depth d - pivot, so the walkdir minimum is max(min - pivot, 0) and the walkdir maximum is max - pivot.
+    What happens when max < pivot is the property's known deviation and a don't-care here.  The functions only add,
+    subtract (saturating) and compare their three small arguments: a grid covering every ordering of (min, max, pivot)
+    with three or more values each decides them."""
+    I = Interp(F)
+    fmin = F.find("walk::behavior::DepthMin::min_at_pivot")
+    fmax = F.find("walk::behavior::DepthMax::max_at_pivot")
+    fmm = F.find("walk::behavior::DepthMinMax::min_max_at_pivot")
+    n = 0
+    for mn, pv in itertools.product(range(1, 6), range(0, 6)):
+        got = strip(tabulate.single(I.explore(lambda: I.call_item(fmin, [Adt("walk::behavior::DepthMin", "DepthMin", {"0": mn}), pv]))))
+        n += 1
+        R.check(got == max(mn - pv, 0), "C15.translate", "min_at_pivot(%d,%d)" % (mn, pv), str(max(mn - pv, 0)), fmin.where(),
+                fail_msg="a minimum depth of %d behind a prefix of %d component(s) becomes %r, expected %d" % (mn, pv, got, max(mn - pv, 0)))
+    for mx, pv in itertools.product(range(0, 6), range(0, 6)):
+        if mx < pv:
+            continue
+        got = strip(tabulate.single(I.explore(lambda: I.call_item(fmax, [Adt("walk::behavior::DepthMax", "DepthMax", {"0": mx}), pv]))))
+        n += 1
+        R.check(got == mx - pv, "C15.translate", "max_at_pivot(%d,%d)" % (mx, pv), str(mx - pv), fmax.where(),
+                fail_msg="a maximum depth of %d behind a prefix of %d component(s) becomes %r, expected %d" % (mx, pv, got, mx - pv))
+    for mn, ex, pv in itertools.product(range(1, 5), range(0, 4), range(0, 6)):
+        mx = mn + ex
+        if mx < pv:
+            continue
+        me = Adt("walk::behavior::DepthMinMax", "DepthMinMax", {"min": mn, "extent": ex})
+        res = strip(tabulate.single(I.explore(lambda: I.call_item(fmm, [me, pv]))))
+        got = (strip(res.items[0]), strip(res.items[1])) if isinstance(res, Tup) else None
+        want = (max(mn - pv, 0), mx - pv)
+        n += 1
+        R.check(got == want, "C15.translate", "min_max_at_pivot(%d..%d,%d)" % (mn, mx, pv), str(want), fmm.where(),
+                fail_msg="the depth window %d..%d behind a prefix of %d component(s) becomes %r, expected %s: entries deeper than the "
+                         "maximum would be yielded (or shallower ones lost)" % (mn, mx, pv, got, want))
+    R.floor("C15.translate", "translation cells", n, 100)
